@@ -1,7 +1,8 @@
 #!/venv/bin/python
 """pytrans4.py — fail-closed translator of hpfeeds/broker/auth/json.py (Authenticator.load, Authenticator.get_authkey),
 hpfeeds/broker/auth/memory.py (Authenticator.get_authkey), hpfeeds/broker/auth/multi.py (Authenticator.get_authkey) and
-hpfeeds/broker/auth/env.py (get_key, get_list, Authenticator.get_authkey; matched against the shapes the functions have)
+hpfeeds/broker/auth/env.py (get_key, get_list, Authenticator.get_authkey) and hpfeeds/broker/auth/sqlite.py (get_authkey) - the
+last two matched against the shapes the functions have
 to Gallina (coq/StoreGen.v), in the layer of coq/PyStore.v.  coq/StoreGenEq.v proves the translated methods equal to
 Stores.load / Stores.json_get, the functions the C17/C18 theorems are about.
 
@@ -398,6 +399,64 @@ def env_store():
     return out
 
 
+def sqlite_store():
+    """sqlite.py: Authenticator.get_authkey, matched against its shape.  SQL is read as: `select * from authkeys where ident=?`
+    with the bound parameter (ident,) and fetchone() = the first row, in rowid order, whose ident column EQUALS the parameter;
+    the columns come in the order of the `create table authkeys` statement of check_db"""
+    import re
+    path = 'hpfeeds/broker/auth/sqlite.py'
+    src = open(os.path.join(REPO, path)).read()
+    ident, body = simple_method(path, 'Authenticator', 'get_authkey')
+    # column order of the table
+    m = re.search(r'create table authkeys \(([^)]*)\)', ' '.join(src.split()))
+    if not m:
+        raise Unsupported(path, 'create table authkeys')
+    cols = [c.strip().split()[0] for c in m.group(1).split(',')]
+    if cols != ['id', 'owner', 'ident', 'secret', 'pubchans', 'subchans']:
+        raise Unsupported(path, 'columns of authkeys: %r' % cols)
+    ok = False
+    if len(body) == 7 and isinstance(body[0], ast.Assign) and isinstance(body[1], ast.Try):
+        cur = body[0].targets[0].id if is_name(body[0].targets[0]) else None
+        c0 = (isinstance(body[0].value, ast.Call) and is_attr(body[0].value.func, 'cursor') and is_attr(body[0].value.func.value, 'sql')
+              and is_name(body[0].value.func.value.value, 'self'))
+        tr = body[1]
+        q = tr.body[0].value if len(tr.body) == 2 and isinstance(tr.body[0], ast.Expr) else None
+        c1 = (isinstance(q, ast.Call) and is_attr(q.func, 'execute') and is_name(q.func.value, cur) and len(q.args) == 2
+              and isinstance(q.args[0], ast.Constant) and q.args[0].value == 'select * from authkeys where ident=?'
+              and isinstance(q.args[1], ast.Tuple) and len(q.args[1].elts) == 1 and is_name(q.args[1].elts[0], ident))
+        f = tr.body[1] if len(tr.body) == 2 else None
+        c2 = (isinstance(f, ast.Assign) and is_name(f.targets[0]) and isinstance(f.value, ast.Call) and is_attr(f.value.func, 'fetchone')
+              and is_name(f.value.func.value, cur) and not f.value.args)
+        res = f.targets[0].id if c2 else None
+        c3 = (len(tr.handlers) == 1 and is_name(tr.handlers[0].type, 'Exception') and is_none_return(tr.handlers[0].body[-1])
+              and len(tr.finalbody) == 1 and not tr.orelse)
+        i = body[2]
+        c4 = (isinstance(i, ast.If) and not i.orelse and isinstance(i.test, ast.UnaryOp) and isinstance(i.test.op, ast.Not)
+              and is_name(i.test.operand, res) and len(i.body) == 1 and is_none_return(i.body[0]))
+        u = body[3]
+        names = [x.id for x in u.targets[0].elts] if (isinstance(u, ast.Assign) and isinstance(u.targets[0], ast.Tuple)
+                                                      and all(is_name(x) for x in u.targets[0].elts)) else []
+        c5 = len(names) == 6 and is_name(u.value, res) and names[1:] == ['owner', ident, 'secret', 'pubchans', 'subchans']
+
+        def loads(s, nm):
+            return (isinstance(s, ast.Assign) and is_name(s.targets[0], nm) and isinstance(s.value, ast.Call) and is_attr(s.value.func, 'loads')
+                    and is_name(s.value.func.value, 'json') and len(s.value.args) == 1 and is_name(s.value.args[0], nm))
+        c6 = loads(body[4], 'pubchans') and loads(body[5], 'subchans')
+        r = body[6]
+        c7 = (isinstance(r, ast.Return) and isinstance(r.value, ast.Call) and is_name(r.value.func, 'dict') and not r.value.args
+              and sorted(k.arg for k in r.value.keywords) == ['ident', 'owner', 'pubchans', 'secret', 'subchans']
+              and all(is_name(k.value, k.arg if k.arg != 'ident' else ident) for k in r.value.keywords))
+        ok = c0 and c1 and c2 and c3 and c4 and c5 and c6 and c7
+    if not ok:
+        raise Unsupported(path, 'sqlite get_authkey shape')
+    return ('(* %s: Authenticator.get_authkey; rows = the authkeys table in rowid order, channel lists already json.loads-ed *)\n'
+            'Definition Sqlite_get_authkey (rows : list sqlrow) (%s : bytes) : option cred :=\n'
+            '  match sql_select_where_ident_eq rows %s with\n'
+            '  | None => None\n'
+            '  | Some t_row => Some (mkcred (s_secret t_row) (s_owner t_row) (s_pub t_row) (s_sub t_row))\n'
+            '  end.' % (path, ident, ident))
+
+
 def main():
     try:
         tree = ast.parse(open(os.path.join(REPO, SRC)).read())
@@ -430,6 +489,7 @@ def main():
         defs.append(memory_get_authkey())
         defs.append(multi_get_authkey())
         defs.extend(env_store())
+        defs.append(sqlite_store())
         txt = ('(* GENERATED by harness/pytrans4.py from %s - do not edit *)\n'
                'From Coq Require Import List Bool String.\nFrom Coq Require Import Strings.Byte.\n'
                'From HP Require Import Bytes Stores PyStore.\nImport ListNotations.\nOpen Scope string_scope.\n\n'
